@@ -123,6 +123,7 @@ theorem map_read_only_by_eff (s : Shared) (t : Thread) (m' : AList)
       | unlock l => simp
       | runlock l => simp
       | swapClosed => simp [Shared.log]
+      | load => simp
 
 /-! ## a store that is never closed -/
 
@@ -176,6 +177,9 @@ theorem oinv_step {s s' : Shared} {pre post : List Thread} {t t' : Thread} (hs :
     exact ⟨hop, others _ ⟨h1, by simp, by simp [hcode]⟩, logged _ trivial⟩
   | checkFail op rest hc hcode hcl => rw [hop] at hcl; cases hcl
   | checkOk op rest hc hcode hcl =>
+    rw [hcode] at h3
+    exact ⟨hop, others _ ⟨h1, h2, mem_suffix_code h3⟩, hev⟩
+  | load op rest hc hcode =>
     rw [hcode] at h3
     exact ⟨hop, others _ ⟨h1, h2, mem_suffix_code h3⟩, hev⟩
   | announce op l rest hc hcode hwt => exact ⟨hop, others _ ⟨h1, h2, h3⟩, hev⟩
